@@ -72,15 +72,15 @@ META["C03"] = {
 
 META["C04"] = {
     "title": "Multi-input combinators follow the interleaving of their inputs",
-    "rule": "cases = (operator, local|_threads form, script A, script B, interleaving). Enumerated: all pairs of scripts with 0..n uniquely numbered items (quick n=3, thorough n=5) and terminal {none, complete, error}, optionally followed by post-terminal events, x ALL interleavings of the two scripts, for merge, zip, combine_latest, with_latest_from, take_until, skip_until, sample, buffer in both forms, both inputs hot Subjects driven from one thread; plus each pair with one input cold (create emitting at subscription); plus seeded random timelines with up to 6 items per input. Non-trivial: both inputs contributed an event and the scripts were really interleaved (some B event precedes some A event); distinct = hash of (operator, form, timeline).",
+    "rule": "cases = (operator, local|_threads form, script A, script B, interleaving). Enumerated: all pairs of scripts with 0..n uniquely numbered items (quick n=3, thorough n=5) and terminal {none, complete, error}, optionally followed by post-terminal events, x ALL interleavings of the two scripts, for merge, zip, combine_latest, with_latest_from, take_until, skip_until, sample, buffer in both forms, both inputs hot Subjects driven from one thread; plus each pair with one input cold (create emitting at subscription); plus seeded random timelines with up to 6 items per input. Non-trivial: both inputs contributed an event and the scripts were really interleaved (some B event precedes some A event); distinct = hash of (operator, form, timeline). Thread part: merge / zip / combine_latest / with_latest_from / take_until / skip_until / sample in their _threads form with input k driven from thread k (1-3 items, optional terminal or unsubscribe per thread), under random, PCT and preemption-bounded systematic schedules at the hooked lock points and free-running on OS threads; oracle: some linearization of the calls consistent with their call/return stamps, fed to the same timeline model, explains the observed output.",
     "assumptions": COMMON_ASSUME + [
         "timeline reference model written from the property statement and operator docs; where they are silent the oracle accepts a set: zip/combine_latest may complete anywhere between 'no further output possible' and 'both inputs completed'; a skip_until notifier completing empty may or may not open the gate; after buffer's notifier completed either flush-and-complete or keep gathering; a take_until/skip_until notifier error may be ignored or propagated; sample may flush or drop an unsampled value when the source completes; buffer may emit or skip an empty buffer",
     ],
-    "technique": "runtime monitoring: recording probe on the real combinators driven through all interleavings of two uniquely-numbered scripts, checked against an executable timeline model (set-valued where unspecified)",
+    "technique": "runtime monitoring: recording probe on the real combinators driven through all interleavings of two uniquely-numbered scripts, checked against an executable timeline model (set-valued where unspecified); for the thread-safe forms a linearizability check of recorded call/return histories against the same model under controlled and free-running thread schedules",
     "level_text": "Exploration: every enumerated interleaving and every sampled random timeline is executed on the real operators (both forms) and compared with the timeline model; unique ids make loss, duplication and mis-pairing directly visible.",
     "level_note": "Trusted: the timeline model (harness/src/model.rs two_input_model) and its documented relaxations, the probe, rustc.",
     "design_ref": "DESIGN.md §5 C04",
-    "require": {"quick": {"operators_covered": 16}, "thorough": {"operators_covered": 16}},
+    "require": {"quick": {"operators_covered": 16, "thread_schedules": 8000, "free_parallel_runs": 1500}, "thorough": {"operators_covered": 16, "thread_schedules": 300000, "free_parallel_runs": 100000}},
 }
 
 META["C01"] = {
